@@ -21,6 +21,8 @@ META = {
 
 
 def run(ctx) -> None:
+    import context_probes as CP
+    CP.diag_history_probe(ctx, "C20", ctx.n(12, 300))
     run_screen_correspondence(ctx, "C20", ctx.n(120, 3000))
     run_hist_correspondence(ctx, "C20", ctx.n(60, 1500))
     if F is not None:
@@ -28,6 +30,9 @@ def run(ctx) -> None:
 
 
 def corpus_case(ctx, r: dict) -> None:
+    if r.get("kind") == "diag_history":
+        import context_probes as CP
+        return CP.diag_history_case(ctx.report, "C20", r)
     if F is not None and hasattr(F, "corpus_case"):
         F.corpus_case(ctx, r)
 
